@@ -5,16 +5,20 @@
   the transcription of the `isinstance` chains; its model by `resultTree`), `Expr.run` what
   Python does with a nested expression, `Expr.denote` the same expression applied to the
   operands' values at one wavelength.  `Generated.docOpTable` is regenerated on every run from
-  docs/synphot/overview.rst.
+  docs/synphot/overview.rst.  The second half ("deepening") adds the converse of the pointwise
+  theorems, compositional typing, the exact agreement with the documented table, commutativity /
+  distributivity of sampled values, the operands that are never accepted, and the frame statement;
+  helper lemmas and the concrete objects of the examples are in `Lemmas/C02x.lean`.
 -/
 import Synphot.Lemmas.Spectrum
+import Synphot.Lemmas.C02x
 import Synphot.Generated.OpTable
 
 set_option linter.unusedSectionVars false
 set_option linter.unusedVariables false
 
 namespace Synphot.C02
-open Synphot
+open Synphot Synphot.C02x
 variable {K : Type} [Field K] [LinearOrder K] [IsStrictOrderedRing K]
 
 /-! ### typing -/
@@ -183,7 +187,426 @@ theorem program_pointwise (E : Env K) (x : K) (p : Expr K) :
     | complex => cases hr
     | other => cases hr
 
-/-- non-vacuity: `2 * (src / 4)` on two constant sources evaluates pointwise -/
-example : True := trivial
+/-! ## deepening: pointwise semantics, both directions -/
+
+/-- converse of `op_pointwise`: where the result evaluates, both operands evaluate there and the
+result's value is the operator applied to theirs (a result never evaluates "by accident") -/
+theorem op_pointwise_conv (E : Env K) (op : BinOp) (self : Spec K) (o : Operand K) (r : Spec K)
+    (x v : K) (h : specOp op self o = .ok r) (hr : r.evalAt E x = .ok v) :
+    ∃ va vb, self.evalAt E x = .ok va ∧ o.valueAt E x = .ok vb ∧ op.apply va vb = .ok v :=
+  specOp_valueAt_conv E op self o r x v h hr
+
+/-- converse of `program_pointwise` for whole programs -/
+theorem program_pointwise_conv (E : Env K) (x : K) (p : Expr K) :
+    ∀ (o : Operand K) (v : K), p.run = .ok o → o.valueAt E x = .ok v → p.denote E x = .ok v := by
+  induction p with
+  | operand o0 =>
+    intro o v hr hv
+    simp only [Expr.run] at hr; cases hr
+    exact hv
+  | bin op l r ihl ihr =>
+    intro o v hr hv
+    simp only [Expr.run] at hr
+    obtain ⟨a, hla, hr⟩ := bind_ok hr
+    obtain ⟨b, hrb, hr⟩ := bind_ok hr
+    simp only [Expr.denote]
+    cases a with
+    | spec s =>
+      simp only [] at hr
+      cases hs : specOp op s b with
+      | error e => rw [hs] at hr; cases hr
+      | ok res =>
+        rw [hs] at hr; cases hr
+        obtain ⟨va, vb, hva, hvb, hap⟩ := specOp_valueAt_conv E op s b res x v hs hv
+        rw [ihl (.spec s) va hla hva, ihr b vb hrb hvb]
+        exact hap
+    | real w =>
+      cases b with
+      | spec s =>
+        cases op with
+        | mul =>
+          simp only [] at hr
+          cases hs : rmul w s with
+          | error e => rw [hs] at hr; cases hr
+          | ok res =>
+            rw [hs] at hr; cases hr
+            obtain ⟨va, vb, hva, hvb, hap⟩ := specOp_valueAt_conv E .mul s (.real w) res x v hs hv
+            simp only [Operand.valueAt] at hvb; cases hvb
+            rw [ihl (.real w) w hla rfl, ihr (.spec s) va hrb hva]
+            simp only [bind, Except.bind, BinOp.apply] at hap ⊢
+            rw [mul_comm]; exact hap
+        | add => cases hr
+        | sub => cases hr
+        | div => cases hr
+      | real _ => cases hr
+      | quantity _ => cases hr
+      | badQuantity => cases hr
+      | complex => cases hr
+      | other => cases hr
+    | quantity _ => cases hr
+    | badQuantity => cases hr
+    | complex => cases hr
+    | other => cases hr
+
+/-- the full pointwise statement: the object a program evaluates to has the value `v` at a
+wavelength exactly when the same expression applied to the operands' values there is `v` — for all
+programs over sources, unitless spectra, observations, scalars on either side of `×` -/
+theorem program_pointwise_iff (E : Env K) (x : K) (p : Expr K) (o : Operand K) (v : K)
+    (h : p.run = .ok o) : o.valueAt E x = .ok v ↔ p.denote E x = .ok v :=
+  ⟨program_pointwise_conv E x p o v h, program_pointwise E x p o v h⟩
+
+/-- two programs with the same pointwise meaning evaluate to objects with the same sampled values -/
+theorem program_equiv (E : Env K) (x : K) (p q : Expr K) (o1 o2 : Operand K)
+    (hp : p.run = .ok o1) (hq : q.run = .ok o2)
+    (hden : ∀ v, p.denote E x = .ok v ↔ q.denote E x = .ok v) (v : K) :
+    o1.valueAt E x = .ok v ↔ o2.valueAt E x = .ok v := by
+  rw [program_pointwise_iff E x p o1 v hp, program_pointwise_iff E x q o2 v hq]; exact hden v
+
+/-! ## deepening: compositional typing -/
+
+/-- the class of the result of EVERY program is computed from its operators and the classes of its
+leaves alone (`Shape.type` runs `typing` at every node; values, models and redshifts play no part) -/
+theorem kind_compositional (p : Expr K) (o : Operand K) (h : p.run = .ok o) :
+    (shape p).type = .ok o.tag :=
+  run_type p o h
+
+/-- hence two programs of the same shape — same operators, same classes of leaves — yield objects
+of the same class whenever both run -/
+theorem kind_determined_by_leaves {K' : Type} [Field K'] [LinearOrder K'] [IsStrictOrderedRing K']
+    (p : Expr K) (q : Expr K') (o : Operand K) (o' : Operand K') (hs : shape p = shape q)
+    (hp : p.run = .ok o) (hq : q.run = .ok o') : o.tag = o'.tag := by
+  have h1 := run_type p o hp
+  have h2 := run_type q o' hq
+  rw [hs, h2] at h1
+  injection h1 with h1; exact h1.symm
+
+/-- and an ill-typed shape never runs: a program whose leaves' classes do not type raises, whatever
+the values of the operands -/
+theorem ill_typed_raises (p : Expr K) (e : Err) (h : (shape p).type = .error e) :
+    ∃ e', p.run = .error e' := by
+  cases hr : p.run with
+  | error e' => exact ⟨e', rfl⟩
+  | ok o => rw [run_type p o hr] at h; cases h
+
+/-- the class the documented table assigns to a combination (`none`: not in the table); the
+delegated `unitless × source` product is the commutative reading of the `source × unitless` row -/
+def docKind (op : BinOp) (L : Kind) (t : OTag) : Option Kind :=
+  match Generated.docOpTable.find? (fun row =>
+      opOf row.2.1 == some op && (leftKinds row.1).contains L && (classTags row.2.2.1).contains t) with
+  | some row =>
+      if row.2.2.2.1 == "Source Spectrum" then some .source
+      else if row.2.2.2.1 == "Unitless Spectrum" then some (if L == .source then .unitless else L)
+      else none
+  | none => if op == .mul && L.isUnitless && t == .spec .source then some .source else none
+
+/-- the code's typing IS the documented table: for all 4 operators × the 5 documented left classes ×
+all 12 operand classes (240 combinations), `typing` returns the class the regenerated table names
+where the table lists the combination, and an error everywhere else -/
+theorem doc_table_exact :
+    allOps.all (fun op => docLeft.all fun L => allTags.all fun t =>
+      (match typing op L t with | .ok k => some k | .error _ => none) == docKind op L t) = true := by
+  decide
+
+/-- a row flagged commutative in the docs: the swapped combination types to the documented class
+as well (a thermal element on the left excepted, see `thermal_not_closed`; for a scalar on the left
+`rmul_comm`) -/
+def rowCommutes (row : String × String × String × String × Bool) : Bool :=
+  !row.2.2.2.2 ||
+  match opOf row.2.1 with
+  | none => false
+  | some op =>
+      (leftKinds row.1).all fun L => (classTags row.2.2.1).all fun R =>
+        match R with
+        | .spec k =>
+            k == .thermal ||
+            (match typing op k (.spec L) with
+             | .ok k' => if row.2.2.2.1 == "Source Spectrum" then k' == .source else k' == k
+             | .error _ => false)
+        | .real => true
+        | _ => false
+
+theorem doc_commutative_rows : Generated.docOpTable.all rowCommutes = true := by decide
+
+/-! ## deepening: commutativity of sampled values -/
+
+/-- `k * sp` sampled is `k · sp(x)` -/
+theorem rmul_sampled (E : Env K) (v : K) (s r : Spec K) (x a : K) (h : rmul v s = .ok r)
+    (ha : s.evalAt E x = .ok a) : r.evalAt E x = .ok (v * a) :=
+  specOp_valueAt E .mul s (.real v) r x a v (v * a) h ha rfl (by rw [apply_mul, mul_comm])
+
+/-- `unitless × source` IS `source × unitless`: the same object (class, model), not merely the same
+values — the unitless operator delegates to the source's -/
+theorem unitless_source_mul_comm (u src : Spec K) (hu : u.kind.isUnitless = true)
+    (hs : src.kind = .source) : specOp .mul u (.spec src) = specOp .mul src (.spec u) := by
+  have h1 : typing .mul u.kind (Operand.spec src).tag = .ok .source := by
+    simp only [Operand.tag, hs]; cases hk : u.kind <;> simp [hk, Kind.isUnitless] at hu <;> rfl
+  have h2 : typing .mul src.kind (Operand.spec u).tag = .ok .source := by
+    simp only [Operand.tag, hs, typing, hu, if_true]
+  have hnu : u.kind ≠ .observation := by intro h; rw [h] at hu; cases hu
+  have t1 : resultTree .mul u (.spec src) =
+      (do let b ← src.model; let a ← u.model; pure (Tree.bin .mul b a)) := by
+    unfold resultTree
+    split
+    · rename_i h _; exact absurd h hnu
+    · rename_i h _; exact absurd h hnu
+    · simp only [hu, hs, and_self, if_true]
+  have t2 : resultTree .mul src (.spec u) =
+      (do let a ← src.model; let b ← u.model; pure (Tree.bin .mul a b)) := by
+    unfold resultTree
+    split
+    · rename_i h _; rw [hs] at h; cases h
+    · rename_i h _; rw [hs] at h; cases h
+    · have : ¬ (src.kind.isUnitless = true ∧ u.kind = .source) := by
+        rw [hs]; simp [Kind.isUnitless]
+      simp only [this, if_false]
+  unfold specOp
+  rw [h1, h2, t1, t2]
+
+/-- `+` and `×` between two spectra commute as far as sampled values go: wherever `a ∘ b` has the
+value `v`, so has `b ∘ a` (source + source; unitless × unitless; source × unitless) -/
+theorem add_mul_comm_sampled (E : Env K) (op : BinOp) (hop : op = .add ∨ op = .mul) (a b r1 r2 : Spec K)
+    (x v : K) (h1 : specOp op a (.spec b) = .ok r1) (h2 : specOp op b (.spec a) = .ok r2)
+    (hv : r1.evalAt E x = .ok v) : r2.evalAt E x = .ok v := by
+  obtain ⟨va, vb, hva, hvb, hap⟩ := specOp_valueAt_conv E op a (.spec b) r1 x v h1 hv
+  refine specOp_valueAt E op b (.spec a) r2 x vb va v h2 hvb hva ?_
+  rcases hop with rfl | rfl
+  · simp only [BinOp.apply] at hap ⊢; rw [add_comm]; exact hap
+  · simp only [BinOp.apply] at hap ⊢; rw [mul_comm]; exact hap
+
+/-- and for two unitless spectra of the same class the two products are of the same class -/
+theorem same_kind_comm_kind (op : BinOp) (a b r1 r2 : Spec K) (hk : a.kind = b.kind)
+    (h1 : specOp op a (.spec b) = .ok r1) (h2 : specOp op b (.spec a) = .ok r2) : r1.kind = r2.kind := by
+  have t1 := specOp_kind op a (.spec b) r1 h1
+  have t2 := specOp_kind op b (.spec a) r2 h2
+  simp only [Operand.tag] at t1 t2
+  rw [hk] at t1; rw [← hk] at t2 ; rw [hk] at t2
+  rw [t1] at t2; injection t2
+
+/-! ## deepening: distributivity and associativity of sampled values -/
+
+/-- `(A + B) × U` and `A × U + B × U` (any sub-programs) evaluate to objects with the same sampled
+values -/
+theorem distrib_sampled (E : Env K) (x : K) (A B U : Expr K) (o1 o2 : Operand K)
+    (h1 : (Expr.bin .mul (.bin .add A B) U).run = .ok o1)
+    (h2 : (Expr.bin .add (.bin .mul A U) (.bin .mul B U)).run = .ok o2) (v : K) :
+    o1.valueAt E x = .ok v ↔ o2.valueAt E x = .ok v := by
+  apply program_equiv E x _ _ o1 o2 h1 h2
+  intro v
+  simp only [Expr.denote]
+  cases hA : A.denote E x <;> cases hB : B.denote E x <;> cases hU : U.denote E x <;>
+    simp [bind, Except.bind, BinOp.apply, add_mul]
+
+/-- `(A × k) × U` and `A × (k × U)` for a real number `k` -/
+theorem scalar_assoc_sampled (E : Env K) (x k : K) (A U : Expr K) (o1 o2 : Operand K)
+    (h1 : (Expr.bin .mul (.bin .mul A (.operand (.real k))) U).run = .ok o1)
+    (h2 : (Expr.bin .mul A (.bin .mul (.operand (.real k)) U)).run = .ok o2) (v : K) :
+    o1.valueAt E x = .ok v ↔ o2.valueAt E x = .ok v := by
+  apply program_equiv E x _ _ o1 o2 h1 h2
+  intro v
+  simp only [Expr.denote, Operand.valueAt]
+  cases hA : A.denote E x <;> cases hU : U.denote E x <;>
+    simp [bind, Except.bind, BinOp.apply, mul_assoc]
+
+/-! ## deepening: operands that are never accepted -/
+
+/-- a complex number is rejected by every operator of every spectrum class, with the exception
+`rejectErr` names (`IncompatibleSources` from `_validate_other_mul_div`/`_validate_other_add_sub`,
+`NotImplementedError` where the class has no such operator) — never a spectrum -/
+theorem complex_operand_raises (op : BinOp) (self : Spec K) :
+    specOp op self .complex = .error (rejectErr op self.kind) :=
+  rejected_never_spectrum op self .complex _ (typing_invalid op self.kind _ (Or.inl rfl))
+
+/-- a dimensioned, scaled-dimensionless (percent), array-valued or complex `Quantity` likewise -/
+theorem bad_quantity_raises (op : BinOp) (self : Spec K) :
+    specOp op self .badQuantity = .error (rejectErr op self.kind) :=
+  rejected_never_spectrum op self .badQuantity _ (typing_invalid op self.kind _ (Or.inr (Or.inl rfl)))
+
+/-- and so is anything that is neither a spectrum nor a number (ndarray, list, str, None) -/
+theorem other_operand_raises (op : BinOp) (self : Spec K) :
+    specOp op self .other = .error (rejectErr op self.kind) :=
+  rejected_never_spectrum op self .other _ (typing_invalid op self.kind _ (Or.inr (Or.inr rfl)))
+
+/-- for the documented classes and `×`, `/` that exception is `IncompatibleSources` -/
+theorem invalid_multiplier_error (op : BinOp) (hop : op = .mul ∨ op = .div) (L : Kind) (hL : L ∈ docLeft) :
+    rejectErr op L = .incompatibleSources := by
+  simp only [docLeft, List.mem_cons, List.not_mem_nil, or_false] at hL
+  rcases hop with rfl | rfl <;> rcases hL with rfl | rfl | rfl | rfl | rfl <;> rfl
+
+/-- source × source -/
+theorem source_mul_source_raises (a b : Spec K) (ha : a.kind = .source) (hb : b.kind = .source) :
+    specOp .mul a (.spec b) = .error .incompatibleSources :=
+  rejected_never_spectrum .mul a (.spec b) _ (by simp only [Operand.tag, ha, hb]; rfl)
+
+/-- adding anything to (subtracting anything from) a unitless spectrum -/
+theorem unitless_add_sub_raises (op : BinOp) (hop : op = .add ∨ op = .sub) (u : Spec K)
+    (hu : u.kind.isUnitless = true) (o : Operand K) : specOp op u o = .error .notImplemented := by
+  apply rejected_never_spectrum
+  rcases hop with rfl | rfl <;> cases hk : u.kind <;> simp [hk, Kind.isUnitless] at hu <;> rfl
+
+/-- unitless / source -/
+theorem unitless_div_source_raises (u src : Spec K) (hu : u.kind.isUnitless = true)
+    (hs : src.kind = .source) : specOp .div u (.spec src) = .error .incompatibleSources := by
+  apply rejected_never_spectrum
+  simp only [Operand.tag, hs]
+  cases hk : u.kind <;> simp [hk, Kind.isUnitless] at hu <;> rfl
+
+/-- inside a program: a failing sub-expression, or an inadmissible right operand of a spectrum,
+fails the whole program — no spectrum comes out -/
+theorem program_error_propagates (op : BinOp) (l r : Expr K) (e : Err)
+    (h : l.run = .error e ∨ (∃ a, l.run = .ok a ∧ r.run = .error e)) :
+    (Expr.bin op l r).run = .error e := by
+  rcases h with h | ⟨a, ha, hr⟩
+  · simp only [Expr.run, h, bind, Except.bind]
+  · simp only [Expr.run, ha, hr, bind, Except.bind]
+
+theorem program_invalid_operand_raises (op : BinOp) (l r : Expr K) (s : Spec K) (o : Operand K)
+    (hl : l.run = .ok (.spec s)) (hr : r.run = .ok o)
+    (ho : o.tag = .complex ∨ o.tag = .badQuantity ∨ o.tag = .other) :
+    (Expr.bin op l r).run = .error (rejectErr op s.kind) := by
+  simp only [Expr.run, hl, hr, bind, Except.bind]
+  rw [rejected_never_spectrum op s o _ (typing_invalid op s.kind o.tag ho)]; rfl
+
+/-! ## deepening: the result is a new object -/
+
+/-- a result is a fresh object: redshift 0, no flux-scale model, and its model is its own tree -/
+theorem result_fresh (op : BinOp) (self : Spec K) (o : Operand K) (r : Spec K)
+    (h : specOp op self o = .ok r) :
+    r.zs = ZState.init 0 .wavelengthOnly ∧ r.model = .ok r.tree := by
+  obtain ⟨k, t, _, _, rfl⟩ := specOp_ok h
+  exact ⟨rfl, ofTree_model k t⟩
+
+/-- frame, left operand: the result is a function of the operand's class and of its `model` at the
+time of the operation — not of its `_model`, `z`, `z_type` separately, and of nothing that is done
+to the operand afterwards -/
+theorem result_depends_on_model_left (op : BinOp) (s s' : Spec K) (o : Operand K)
+    (hk : s.kind = s'.kind) (hm : s.model = s'.model) : specOp op s o = specOp op s' o := by
+  unfold specOp; rw [resultTree_congr_left op s s' o hk hm, hk]
+
+/-- frame, right operand -/
+theorem result_depends_on_model_right (op : BinOp) (self s s' : Spec K)
+    (hk : s.kind = s'.kind) (hm : s.model = s'.model) :
+    specOp op self (.spec s) = specOp op self (.spec s') := by
+  unfold specOp; rw [resultTree_congr_right op self s s' hk hm]; simp only [Operand.tag, hk]
+
+/-- the result keeps the values its operands had when it was built: re-assigning the left operand's
+redshift afterwards (`s.zs.setZ z'` is `sp.z = z'`) changes the operand, the result still samples to
+the operator applied to the OLD values -/
+theorem result_keeps_snapshot (E : Env K) (op : BinOp) (s : Spec K) (o : Operand K) (r : Spec K)
+    (x va vb v z' : K) (h : specOp op s o = .ok r) (ha : s.evalAt E x = .ok va)
+    (hb : o.valueAt E x = .ok vb) (hv : op.apply va vb = .ok v) :
+    let s' : Spec K := { s with zs := s.zs.setZ z' }
+    r.evalAt E x = .ok v ∧ (∀ r', specOp op s' o = .ok r' → ∀ va', s'.evalAt E x = .ok va' →
+      ∀ v', op.apply va' vb = .ok v' → r'.evalAt E x = .ok v') :=
+  ⟨specOp_valueAt E op s o r x va vb v h ha hb hv,
+   fun r' h' va' ha' v' hv' => specOp_valueAt E op _ o r' x va' vb v' h' ha' hb hv'⟩
+
+/-! ## non-vacuity of the deepened theorems (ℚ; `srcA` = 6, `srcB` = 4 flat sources, `band` = 1/2,
+`redd` = 1/4, `obsA` the observation of `srcA` through `band`, `boxZ` a box source at z = 1) -/
+section examples
+
+example : ∃ va vb, srcA.evalAt exE 5 = .ok va ∧ (Operand.spec band).valueAt exE 5 = .ok vb ∧
+    BinOp.mul.apply va vb = .ok (6 * (1/2)) :=
+  op_pointwise_conv exE .mul srcA (.spec band) _ 5 (6 * (1/2)) ex_src_mul_band
+    (by rw [ofTree_evalAt]; rfl)
+
+/-- `2 * (obs * band)`: an observation and a reflected scalar in one program -/
+theorem exProg_denote : exProg.denote exE 7 = .ok (2 * (6 * (1/2) * (1/2))) := by
+  simp only [exProg, Expr.denote, Operand.valueAt, obsA_val, band_val, bind, Except.bind, BinOp.apply]
+example : (Operand.spec (Spec.ofTree .observation
+      (.bin .mul (.scale (.bin .mul (.leaf (.const1 6)) (.leaf (.const1 (1/2)))) 2)
+        (.leaf (.const1 (1/2)))))).valueAt exE 7 = .ok (2 * (6 * (1/2) * (1/2))) :=
+  (program_pointwise_iff exE 7 exProg _ _ exProg_run).mpr exProg_denote
+example : exProg.denote exE 7 = .ok (2 * (6 * (1/2) * (1/2))) :=
+  program_pointwise_conv exE 7 exProg _ _ exProg_run
+    (program_pointwise exE 7 exProg _ _ exProg_run exProg_denote)
+
+/-- typing of the same program from the classes of its leaves -/
+example : (shape exProg).type = .ok (.spec .observation) := kind_compositional exProg _ exProg_run
+example : (shape exProg).type = .ok (.spec .observation) := by decide
+
+theorem ex_pA : (Expr.bin .mul (.operand (.spec srcA)) (.operand (.spec band))).run =
+    .ok (.spec (Spec.ofTree .source (.bin .mul (.leaf (.const1 6)) (.leaf (.const1 (1/2)))))) := by
+  simp only [Expr.run, ex_src_mul_band, bind, Except.bind, Except.map]
+/-- `srcA * band` and `srcB * band`: the same shape with different values -/
+theorem ex_pD : (Expr.bin .mul (.operand (.spec srcB)) (.operand (.spec band))).run =
+    .ok (.spec (Spec.ofTree .source (.bin .mul (.leaf (.const1 4)) (.leaf (.const1 (1/2)))))) := by
+  simp [Expr.run, specOp, typing, resultTree, srcB, band, Spec.ofTree, Operand.tag, Kind.isUnitless,
+    Spec.model, ZState.model, ZState.init, bind, Except.bind, pure, Except.pure, Except.map]
+example : (Operand.spec (Spec.ofTree .source (.bin .mul (.leaf (.const1 6)) (.leaf (.const1 (1/2))))) : Operand ℚ).tag
+    = (Operand.spec (Spec.ofTree .source (.bin .mul (.leaf (.const1 4)) (.leaf (.const1 (1/2))))) : Operand ℚ).tag :=
+  kind_determined_by_leaves (.bin .mul (.operand (.spec srcA)) (.operand (.spec band)))
+    (.bin .mul (.operand (.spec srcB)) (.operand (.spec band))) _ _ rfl ex_pA ex_pD
+example : ∃ e', (Expr.bin .mul (.operand (.spec srcA)) (.operand (.spec srcB))).run = .error e' :=
+  ill_typed_raises _ .incompatibleSources (by decide)
+
+example : docKind .div .source (.spec .source) = some .unitless := by decide
+example : docKind .mul .reddening (.spec .source) = some .source := by decide
+example : docKind .add .bandpass .real = none := by decide
+example : rowCommutes ("Source Spectrum", "*", "Unitless Spectrum", "Source Spectrum", true) = true := by decide
+example : rowCommutes ("Source Spectrum", "-", "Source Spectrum", "Source Spectrum", true) = true := by decide
+example : rowCommutes ("Source Spectrum", "/", "Unitless Spectrum", "Source Spectrum", true) = false := by decide
+
+example : (Spec.ofTree .source (.scale (.leaf (.const1 6)) 3) : Spec ℚ).evalAt exE 5 = .ok (3 * 6) :=
+  rmul_sampled exE 3 srcA _ 5 6 ex_rmul (srcA_val 5)
+example : specOp .mul band (.spec srcA) =
+    .ok (Spec.ofTree .source (.bin .mul (.leaf (.const1 6)) (.leaf (.const1 (1/2))))) := by
+  rw [unitless_source_mul_comm band srcA rfl rfl]; exact ex_src_mul_band
+example : (Spec.ofTree .reddening (.bin .mul (.leaf (.const1 (1/4))) (.leaf (.const1 (1/2)))) : Spec ℚ).evalAt exE 5
+    = .ok (1/2 * (1/4)) :=
+  add_mul_comm_sampled exE .mul (Or.inr rfl) band redd _ _ 5 _ ex_band_mul_redd ex_redd_mul_band
+    (by rw [ofTree_evalAt]; rfl)
+example : (Spec.ofTree .source (.bin .add (.leaf (.const1 6)) (.leaf (.const1 4))) : Spec ℚ).kind =
+    (Spec.ofTree .source (.bin .add (.leaf (.const1 4)) (.leaf (.const1 6))) : Spec ℚ).kind :=
+  same_kind_comm_kind .add srcA srcB _ _ rfl ex_src_add_src ex_srcB_add_srcA
+
+/-- (6 + 4)·½ = 6·½ + 4·½ on the objects -/
+example : (Operand.spec (Spec.ofTree .source (.bin .add (.bin .mul (.leaf (.const1 6)) (.leaf (.const1 (1/2))))
+      (.bin .mul (.leaf (.const1 4)) (.leaf (.const1 (1/2))))))).valueAt exE 5 = .ok ((6 + 4) * (1/2)) :=
+  (distrib_sampled exE 5 _ _ _ _ _ exDistL_run exDistR_run _).mp
+    (by simp only [Operand.valueAt, ofTree_evalAt]; rfl)
+example : (Operand.spec (Spec.ofTree .source
+      (.bin .mul (.leaf (.const1 6)) (.scale (.leaf (.const1 (1/2))) 3)))).valueAt exE 5 = .ok (6 * 3 * (1/2)) :=
+  (scalar_assoc_sampled exE 5 3 _ _ _ _ exAssL_run exAssR_run _).mp
+    (by simp only [Operand.valueAt, ofTree_evalAt]; rfl)
+example : (Operand.spec (Spec.ofTree .source
+      (.bin .mul (.leaf (.const1 6)) (.scale (.leaf (.const1 (1/2))) 3)))).valueAt exE 5 = .ok (6 * 3 * (1/2)) :=
+  (program_equiv exE 5 exAssL exAssR _ _ exAssL_run exAssR_run
+    (fun v => by
+      simp only [exAssL, exAssR, Expr.denote, Operand.valueAt, srcA_val, band_val, bind, Except.bind,
+        BinOp.apply, mul_assoc]) _).mp
+    (by simp only [Operand.valueAt, ofTree_evalAt]; rfl)
+
+example : specOp .mul srcA .complex = .error .incompatibleSources := complex_operand_raises .mul srcA
+example : specOp .div band .badQuantity = .error .incompatibleSources := bad_quantity_raises .div band
+example : specOp .add redd .other = .error .notImplemented := other_operand_raises .add redd
+example : rejectErr .div .extcurve = .incompatibleSources :=
+  invalid_multiplier_error .div (Or.inr rfl) .extcurve (by decide)
+example : specOp .mul srcA (.spec srcB) = .error .incompatibleSources := source_mul_source_raises srcA srcB rfl rfl
+example : specOp .add band (.real 1) = .error .notImplemented :=
+  unitless_add_sub_raises .add (Or.inl rfl) band rfl (.real 1)
+example : specOp .div band (.spec srcA) = .error .incompatibleSources :=
+  unitless_div_source_raises band srcA rfl rfl
+example : (Expr.bin .mul (.bin .mul (.operand (.spec srcA)) (.operand (.spec srcB))) (.operand (.spec band))).run
+    = .error .incompatibleSources :=
+  program_error_propagates .mul _ _ _ (Or.inl (by
+    simp only [Expr.run, source_mul_source_raises srcA srcB rfl rfl, bind, Except.bind, Except.map]))
+example : (Expr.bin .mul (.operand (.spec srcA)) (.operand .complex)).run = .error .incompatibleSources :=
+  program_invalid_operand_raises .mul _ _ srcA .complex rfl rfl (Or.inl rfl)
+
+example : ∃ r, specOp .mul srcA (.spec band) = .ok r ∧ r.zs = ZState.init 0 .wavelengthOnly ∧
+    r.model = .ok r.tree :=
+  ⟨_, ex_src_mul_band, result_fresh .mul srcA (.spec band) _ ex_src_mul_band⟩
+/-- the box source at z = 1 and the same spectrum held as an already redshifted model: same results -/
+example : specOp .mul boxZ (.real 2) = specOp .mul boxZ' (.real 2) :=
+  result_depends_on_model_left .mul boxZ boxZ' (.real 2) rfl boxZ_model
+example : specOp .mul band (.spec boxZ) = specOp .mul band (.spec boxZ') :=
+  result_depends_on_model_right .mul band boxZ boxZ' rfl boxZ_model
+/-- `r = boxZ * 2` built at z = 1 is 2 at wavelength 6; after `boxZ.z = 0` the operand is 0 there
+(`boxZ_setZ_val`), `r` still 2 -/
+example : (Spec.ofTree .source (.scale (.redshift 1 (.leaf (.box 1 3 2 none))) 2) : Spec ℚ).evalAt exE 6
+    = .ok (1 * 2) :=
+  (result_keeps_snapshot exE .mul boxZ (.real 2) _ 6 1 2 (1 * 2) 0 ex_boxZ_mul boxZ_val rfl rfl).1
+
+end examples
 
 end Synphot.C02
